@@ -11,7 +11,13 @@
 //!   retention   a blob store of its own, random timestamp lists with ties, random counts.
 //!   store_raw   a bare `TensorStore`: plain / `_cache:` / `emb:`(+`_embedding`) keys,
 //!               `snapshot_bytes` / `restore_from_bytes` only.
-//!   witness     the model's Lean witnesses replayed on the real code.
+//!   witness     the model's Lean witnesses replayed on the real code, and the directed regression
+//!               cases of repaired defects (id shadowed by a name: /repo fff752bd) — all run first.
+//!
+//! Target resolution: `ROLLBACK TO x` = the listed checkpoint with id `x`, else the newest listed
+//! one named `x`; a listed id that brings back a checkpoint NAMED with it is violation class
+//! `tensor_checkpoint.storage/id_shadowed_by_name`.  Raw keys are compared bit for bit by the
+//! property oracle (`raw_strict`) and in a canonical form with the model (`raw`), see `show_raw`.
 //!
 //! After every statement the full observable image (every table scan + an index-path query per
 //! index, nodes / edges / neighbours / by-label, all embeddings + searches, raw keys) is compared
@@ -630,11 +636,37 @@ impl Sys {
         v.sort_unstable();
         v
     }
-    /// the checkpoint a target string must resolve to by the documented rule (newest listed
-    /// checkpoint whose id or name is the string), computed from the harness's own bookkeeping:
-    /// Ok(None) = nothing matches, Err(()) = several newest matches share a timestamp (hash order
-    /// decides; not predictable)
+    /// the checkpoint a target string must resolve to by the documented rule (the listed
+    /// checkpoint whose ID is the string; otherwise the newest listed checkpoint whose NAME is the
+    /// string), computed from the harness's own bookkeeping: Ok(None) = nothing matches,
+    /// Err(()) = several newest name matches share a timestamp (hash order decides; not predictable)
     fn expected_target(&self, code: u64, live: &[u64]) -> Result<Option<u64>, ()> {
+        if live.contains(&code) {
+            return Ok(Some(code));
+        }
+        let cands: Vec<(u64, u64)> = live
+            .iter()
+            .filter_map(|i| {
+                let (nm, ts) = self.ck_meta.get(i)?;
+                if *nm == code {
+                    Some((*i, *ts))
+                } else {
+                    None
+                }
+            })
+            .collect();
+        let Some(best) = cands.iter().map(|c| c.1).max() else { return Ok(None) };
+        let top: Vec<u64> = cands.iter().filter(|c| c.1 == best).map(|c| c.0).collect();
+        if top.len() == 1 {
+            Ok(Some(top[0]))
+        } else {
+            Err(())
+        }
+    }
+    /// what `CheckpointManager::delete` acts on: its own one-pass lookup over the newest-first
+    /// listing (`cp.id == x || cp.name == x`), which /repo fff752bd did not touch — the newest listed
+    /// checkpoint whose id OR name is the string (Err(()) = the newest matches tie)
+    fn expected_delete_target(&self, code: u64, live: &[u64]) -> Result<Option<u64>, ()> {
         let cands: Vec<(u64, u64)> = live
             .iter()
             .filter_map(|i| {
@@ -653,6 +685,10 @@ impl Sys {
         } else {
             Err(())
         }
+    }
+    /// listed checkpoints OTHER than `code` whose NAME is the id string of checkpoint `code`
+    fn named_with_id_of(&self, code: u64, live: &[u64]) -> Vec<u64> {
+        live.iter().copied().filter(|j| *j != code && self.ck_meta.get(j).is_some_and(|m| m.0 == code)).collect()
     }
     fn loadable(&self, n: u64) -> bool {
         let blob = self.router.blob().expect("blob").clone();
@@ -736,8 +772,7 @@ impl Sys {
         let mut embs = vec![];
         for k in &keys {
             if let Ok(vec) = v.get_embedding(&format!("e{k}")) {
-                let is: Vec<i64> = vec.iter().map(|x| *x as i64).collect();
-                embs.push(format!("{k}:{}", dots(&is)));
+                embs.push(format!("{k}:{}", comps(&vec)));
             }
         }
         let search: Vec<String> = probe_queries()
@@ -758,6 +793,7 @@ impl Sys {
         // raw keys
         let st = self.store();
         let mut raw: Vec<(u64, String)> = vec![];
+        let mut raw_strict: Vec<(u64, String)> = vec![];
         for key in st.scan("") {
             let (code, name) = if let Some(k) = key.strip_prefix("plain:").and_then(|s| s.parse::<u64>().ok()) {
                 (k, format!("m{k}"))
@@ -769,10 +805,12 @@ impl Sys {
                 continue;
             };
             if let Ok(t) = st.get(&key) {
-                raw.push((code, format!("{name}={}", show_raw(&t))));
+                raw.push((code, format!("{name}={}", show_raw(&t, false))));
+                raw_strict.push((code, format!("{name}={}", show_raw(&t, true))));
             }
         }
         raw.sort();
+        raw_strict.sort();
         Image {
             tables,
             nodes: nodes.join(","),
@@ -782,19 +820,35 @@ impl Sys {
             embs: embs.join(","),
             search: search.join("|"),
             raw: raw.into_iter().map(|p| p.1).collect::<Vec<_>>().join(","),
+            raw_strict: raw_strict.into_iter().map(|p| p.1).collect::<Vec<_>>().join(","),
         }
     }
 }
 
-fn show_raw(t: &TensorData) -> String {
+/// components of a vector: integral values as integers, anything else with all its digits (a
+/// cast would hide a perturbation)
+fn comps(v: &[f32]) -> String {
+    v.iter().map(|x| if *x == x.trunc() && x.abs() < 1e9 { (*x as i64).to_string() } else { format!("{x:?}") }).collect::<Vec<_>>().join(".")
+}
+
+/// tolerance of the CANONICAL form of a slab-dimension `_embedding` (what is compared with the
+/// model, whose per-vector snapshot codec is the identity): every component within this distance of
+/// one and the same integer
+const EMB_TOL: f32 = 0.01;
+
+/// `strict` = bit-level (the property oracle: what was put must come back bit for bit);
+/// otherwise the canonical form compared with the model: a slab-dimension `_embedding` whose
+/// components are all within `EMB_TOL` of one integer `n` is `n` — the real snapshot codec
+/// (tensor-train for 384 components) returns even a constant integer vector only up to a few 1e-6,
+/// see the known finding `dense_embedding_perturbed`
+fn show_raw(t: &TensorData, strict: bool) -> String {
     if let Some(v) = t.get("vector") {
         let dense: Vec<f32> = match v {
             TensorValue::Vector(v) => v.clone(),
             TensorValue::Sparse(s) => s.to_dense(),
             _ => vec![],
         };
-        let is: Vec<i64> = dense.iter().map(|x| *x as i64).collect();
-        return format!("v{}", dots(&is));
+        return format!("v{}", comps(&dense));
     }
     let x = match t.get("x") {
         Some(TensorValue::Scalar(ScalarValue::Int(x))) => x.to_string(),
@@ -803,8 +857,21 @@ fn show_raw(t: &TensorData) -> String {
     let e = match t.get("_embedding") {
         Some(TensorValue::Vector(v)) if !v.is_empty() => {
             let f = v[0];
-            if v.len() == EMB_DIM && v.iter().all(|y| *y == f) {
+            let n = f.round();
+            if v.len() == EMB_DIM && v.iter().all(|y| y.to_bits() == f.to_bits()) && f == f.trunc() {
+                // bit-identical components of an integer value: no rounding can hide in the cast
                 (f as i64).to_string()
+            } else if !strict && v.len() == EMB_DIM && v.iter().all(|y| (y - n).abs() <= EMB_TOL) {
+                (n as i64).to_string()
+            } else if v.len() == EMB_DIM {
+                // FNV-1a over the bit patterns: two values print alike iff they are bit-identical
+                let mut h: u64 = 0xcbf29ce484222325;
+                for y in v {
+                    for b in y.to_bits().to_le_bytes() {
+                        h = (h ^ u64::from(b)).wrapping_mul(0x100000001b3);
+                    }
+                }
+                format!("?{}:{:?}..#{h:016x}", v.len(), f)
             } else {
                 format!("?{}", v.len())
             }
@@ -824,10 +891,18 @@ struct Image {
     by_label: String,
     embs: String,
     search: String,
+    /// canonical (model-comparable) form of the raw keys
     raw: String,
+    /// bit-level form of the raw keys (property oracle only; not sent to the model)
+    raw_strict: String,
 }
 
 impl Image {
+    /// the part of the image that a rollback restores exactly (read through the key-addressed
+    /// slabs: `rollback_exact_partial`): identifies WHICH checkpoint's image came back
+    fn kv(&self) -> (Vec<u64>, &str, &str, &str, &str, &str) {
+        (self.tables.iter().map(|t| t.0).collect(), &self.nodes, &self.edges, &self.nbrs, &self.embs, &self.raw)
+    }
     fn line(&self) -> String {
         let t: Vec<String> = self.tables.iter().map(|(t, s, e, l)| format!("t{t}[{s}|{e}|{l}]")).collect();
         [
@@ -917,6 +992,13 @@ fn diff_images(then: &Image, now: &Image) -> Vec<(String, String)> {
             "tensor_store.restore_from_bytes/keys_not_restored".to_string(),
             "plain / cache / emb keys after the restore differ from the snapshotted ones".to_string(),
         ));
+    } else if then.raw_strict != now.raw_strict {
+        // same keys, same scalar fields, every slab-dimension `_embedding` within EMB_TOL of what
+        // it was (the canonical forms agree) — but not bit for bit
+        out.push((
+            DENSE_CLASS.to_string(),
+            format!("every plain / cache / emb key is back with its scalar field, but a {EMB_DIM}-dim `_embedding` under an `emb:` key is not bit-exact (within {EMB_TOL} per component): the snapshot carries the embedding-slab copy through tensor-train compression and the restore re-puts it over the exact value kept in the metadata slab; at the checkpoint [{}], after the rollback [{}]", then.raw_strict, now.raw_strict),
+        ));
     }
     out
 }
@@ -924,6 +1006,8 @@ fn diff_images(then: &Image, now: &Image) -> Vec<(String, String)> {
 struct Ctx {
     rep: Report,
     per_class: BTreeMap<String, u32>,
+    /// the delete-by-shadowed-id aside is recorded once per run
+    delete_shadow_noted: bool,
 }
 impl Ctx {
     fn violation(&mut self, class: &str, what: &str, input: serde_json::Value) {
@@ -1015,12 +1099,15 @@ fn gen_op(r: &mut Rng, g: &mut Gen, n_ck: u64, raw_mix: bool, mode: Mode) -> Op 
         }
         87..=92 => {
             if mode == Mode::Manager && r.chance(1, 3) {
-                if n_ck > 0 && r.chance(1, 6) {
+                if n_ck > 0 && r.chance(1, 3) {
                     // named with the id string of an earlier checkpoint
                     Op::Ckpt(Some(r.below(n_ck)))
                 } else {
                     Op::Ckpt(Some(SHARED_NAMES[r.below(2) as usize]))
                 }
+            } else if mode == Mode::Router && n_ck > 0 && r.chance(1, 8) {
+                // CHECKPOINT '<uuid of an earlier checkpoint>'
+                Op::Ckpt(Some(r.below(n_ck)))
             } else {
                 Op::Ckpt(None)
             }
@@ -1051,7 +1138,6 @@ fn run_case(ctx: &mut Ctx, m: &mut Model, stream: &str, mode: Mode, max: usize, 
     let mut state_changes = 0;
     let mut ok_results = 0;
     let mut after_rollback = false;
-    let mut shadow_noted = false;
     for op in ops {
         if record {
             ctx.rep.hit(&format!("op:{}", op.tag()));
@@ -1129,7 +1215,7 @@ fn run_case(ctx: &mut Ctx, m: &mut Model, stream: &str, mode: Mode, max: usize, 
             }
             Op::CkDel(code) => {
                 let live_before = sys.live_ids();
-                let exp = match sys.expected_target(*code, &live_before) {
+                let exp = match sys.expected_delete_target(*code, &live_before) {
                     Ok(e) => e,
                     Err(()) => {
                         ctx.rep.hit("ambiguous_target_skipped");
@@ -1141,6 +1227,20 @@ fn run_case(ctx: &mut Ctx, m: &mut Model, stream: &str, mode: Mode, max: usize, 
                 let live_after = sys.live_ids();
                 let want: Vec<u64> = live_before.iter().copied().filter(|i| Some(*i) != exp).collect();
                 let ok_expected = exp.is_some();
+                // aside, outside the property (manual deletes are not in its quantifier): a delete by
+                // the id of a LISTED checkpoint that unlists a newer checkpoint NAMED with that id
+                // string — `CheckpointManager::delete` has its own lookup, not repaired by fff752bd
+                let shadowers = sys.named_with_id_of(*code, &live_before);
+                let removed: Vec<u64> = live_before.iter().copied().filter(|i| !live_after.contains(i)).collect();
+                if live_before.contains(code) && !shadowers.is_empty() {
+                    ctx.rep.hit("ckdel:listed_id_also_a_name");
+                    if ans == "ok" && removed.len() == 1 && shadowers.contains(&removed[0]) && !ctx.delete_shadow_noted {
+                        ctx.delete_shadow_noted = true;
+                        ctx.rep.observe(json!({"class": "tensor_checkpoint.manager_delete/id_shadowed_by_name",
+                            "what": format!("checkpoint number {code} is listed, but CheckpointManager::delete(<its id>) unlisted checkpoint number {}, whose NAME is that id string and which is newer: delete does not call find_by_id_or_name but repeats the one-pass lookup that /repo fff752bd replaced there (ROLLBACK TO the same string reaches checkpoint number {code})", removed[0]),
+                            "stream": stream, "ops": trace.clone(), "op": op.line(), "ts": tss}));
+                    }
+                }
                 if (ans == "ok") != ok_expected || live_after != want || sys.image() != img_before {
                     violated = true;
                     ctx.violation(
@@ -1259,20 +1359,18 @@ fn run_case(ctx: &mut Ctx, m: &mut Model, stream: &str, mode: Mode, max: usize, 
                     violated = true;
                     ctx.violation(
                         "query_router.rollback/target_resolution",
-                        &format!("ROLLBACK TO target code {code} answered {ans} while the newest listed checkpoint with that id or name is {exp:?} (listed: {live_before:?})"),
+                        &format!("ROLLBACK TO target code {code} answered {ans} while the listed checkpoint with that id, else the newest listed one with that name, is {exp:?} (listed: {live_before:?})"),
                         json!({"stream": stream, "ops": trace.clone(), "target": code}),
                     );
                 }
                 if ans == "ok" {
+                    let shadowers = sys.named_with_id_of(*code, &live_before);
                     if let Some(e) = exp {
-                        if e != *code && *code < NAME0 {
-                            ctx.rep.hit("rollback:id_shadowed_by_name");
-                            if live_before.contains(code) && !shadow_noted {
-                                shadow_noted = true;
-                                ctx.rep.observe(json!({"class": "tensor_checkpoint.storage/id_shadowed_by_name",
-                                    "what": format!("checkpoint number {code} is listed, but ROLLBACK TO its id restores checkpoint number {e}, whose NAME is that id string and which is newer (find_by_id_or_name takes the first listing entry matching either field)"),
-                                    "stream": stream, "ops": trace.clone()}));
-                            }
+                        if e == *code && !shadowers.is_empty() {
+                            // the guard of fff752bd is the only thing that makes this target reach `code`
+                            ctx.rep.hit("rollback:listed_id_also_a_name");
+                        } else if e != *code && *code < NAME0 {
+                            ctx.rep.hit("rollback:unlisted_id_by_name");
                         } else if *code >= NAME0 && *code != NAME0 + e {
                             ctx.rep.hit("rollback:by_shared_or_foreign_name");
                         }
@@ -1289,10 +1387,33 @@ fn run_case(ctx: &mut Ctx, m: &mut Model, stream: &str, mode: Mode, max: usize, 
                             json!({"stream": stream, "ops": trace.clone(), "target": code}),
                         );
                     }
-                    // the image of a DIFFERENT checkpoint came back: target resolution went wrong
+                    // WHICH checkpoint came back, told by the part of the image a rollback restores
+                    // exactly.  A listed id must restore that very checkpoint: when instead the image
+                    // of a listed checkpoint NAMED with the id string is back, the id was shadowed by
+                    // the name (repaired by /repo fff752bd) — its own narrow class.
+                    let shadow: Option<u64> = match (exp, oracle.get(n)) {
+                        (Some(e), Some(then)) if e == *code && then.kv() != now.kv() => {
+                            shadowers.iter().copied().find(|j| oracle.get(j).is_some_and(|img| img.kv() == now.kv()))
+                        }
+                        _ => None,
+                    };
+                    if let Some(j) = shadow {
+                        violated = true;
+                        ctx.violation(
+                            SHADOW_CLASS,
+                            &format!("checkpoint number {code} is listed, but ROLLBACK TO <its id> restored checkpoint number {j}, whose NAME is that id string (find_by_id_or_name must prefer the id match over a name match): a retained checkpoint cannot be reached by its id"),
+                            json!({"stream": stream, "ops": trace.clone(), "op": op.line(), "target": code, "expected": code, "restored": j, "ts": tss, "max": max,
+                                   "image_of_target": oracle.get(n).map(|i| i.line()), "image_after_rollback": now.line()}),
+                        );
+                    }
+                    // the image of a DIFFERENT checkpoint came back: target resolution went wrong.
+                    // Told by the exactly-restored part as well: the full images also differ by the
+                    // known engine-side defects (a checkpoint taken after an earlier rollback to the
+                    // same state carries them, the target's own image does not), which says nothing
+                    // about WHICH checkpoint was loaded.
                     let other: Option<u64> = match oracle.get(n) {
-                        Some(then) if *then != now => {
-                            oracle.iter().find(|(i, img)| *i != n && **img == now && oracle.get(n) != Some(*img)).map(|p| *p.0)
+                        Some(then) if then.kv() != now.kv() && shadow.is_none() => {
+                            oracle.iter().find(|(i, img)| *i != n && img.kv() == now.kv()).map(|p| *p.0)
                         }
                         _ => None,
                     };
@@ -1300,10 +1421,13 @@ fn run_case(ctx: &mut Ctx, m: &mut Model, stream: &str, mode: Mode, max: usize, 
                         violated = true;
                         ctx.violation(
                             "query_router.rollback/wrong_checkpoint_restored",
-                            &format!("ROLLBACK TO target code {code} must restore checkpoint number {n} (the newest listed one with that id or name) but the database now equals the image of checkpoint number {o}"),
+                            &format!("ROLLBACK TO target code {code} must restore checkpoint number {n} (the listed one with that id, else the newest listed one with that name) but the database now equals the image of checkpoint number {o}"),
                             json!({"stream": stream, "ops": trace.clone(), "target": code, "expected": n, "restored": o}),
                         );
                     }
+                    // what the rollback did to the image is judged against the checkpoint that
+                    // actually came back (the shadow class above already says it was the wrong one)
+                    let n = &shadow.unwrap_or(*n);
                     if let Some(then) = oracle.get(n) {
                         for (class, what) in diff_images(then, &now) {
                             violated = true;
@@ -1465,7 +1589,7 @@ fn stream_router(ctx: &mut Ctx, m: &mut Model, rng: &Rng, cases: usize, mode: Mo
         if !agreed {
             ctx.rep.note(&format!("{name}: the disagreeing case ran with blob chunk size {chunk} (0 = default)"));
             // shrink the op list for the replay file
-            let mut scratch = Ctx { rep: Report::new(""), per_class: BTreeMap::new() };
+            let mut scratch = Ctx { rep: Report::new(""), per_class: BTreeMap::new(), delete_shadow_noted: false };
             let small = shrink_list(&ops, &mut |cand: &[Op]| {
                 let (a, _) = run_case(&mut scratch, m, name, mode, max, cand, &tss, false);
                 !a
@@ -1508,7 +1632,16 @@ fn stream_witness(ctx: &mut Ctx, m: &mut Model) {
     let mcases: Vec<(&str, Vec<Op>, Vec<u64>)> = vec![
         ("name_picks_newest", vec![kp(1), shared.clone(), kp(2), shared.clone(), kp(3), Op::CkTop(1), by_shared.clone(), by_shared.clone()], vec![5, 6]),
         ("older_same_name_by_id", vec![kp(1), shared.clone(), kp(2), shared.clone(), kp(3), Op::Rollback(0)], vec![5, 6]),
+        // regression cases of /repo fff752bd (an id match wins over a name match): the shortest
+        // history in which the id pass is the only thing that keeps a listed checkpoint reachable,
+        // then its variants — two shadowing checkpoints, equal timestamps, a delete by the
+        // shadowed id, the shadowed checkpoint unlisted first (then the name is reached)
         ("id_shadowed_by_name", vec![kp(1), CK, kp(2), Op::Ckpt(Some(0)), kp(3), Op::Rollback(0)], vec![5, 6]),
+        ("id_shadowed_by_two_names", vec![kp(1), CK, kp(2), Op::Ckpt(Some(0)), Op::GNode(1), Op::Ckpt(Some(0)), kp(3), Op::CkTop(3), Op::Rollback(0)], vec![5, 6, 7]),
+        ("id_shadowed_same_second", vec![kp(1), CK, kp(2), Op::Ckpt(Some(0)), kp(3), Op::Rollback(0)], vec![5, 5]),
+        ("id_shadowed_delete_by_id", vec![kp(1), CK, kp(2), Op::Ckpt(Some(0)), kp(3), Op::CkDel(0), Op::CkTop(3), Op::Rollback(0), Op::Rollback(1)], vec![5, 6]),
+        ("id_shadowed_delete_shadower_by_id", vec![kp(1), CK, kp(2), Op::Ckpt(Some(0)), kp(3), Op::CkDel(1), Op::Rollback(0)], vec![5, 6]),
+        ("id_shadowed_middle", vec![kp(1), CK, kp(2), CK, kp(3), Op::Ckpt(Some(1)), Op::VPut(0, vec![1, 2, 3]), Op::Ckpt(Some(0)), kp(4), Op::Rollback(1)], vec![5, 6, 7, 8]),
         ("delete_then_rollback", vec![kp(1), CK, kp(2), shared.clone(), Op::GNode(1), shared.clone(), Op::CkDel(SHARED_NAMES[0]), Op::CkTop(5), by_shared.clone(), Op::CkDel(7), Op::CkDel(0), rb(0)], vec![5, 6, 7]),
         ("rollback_by_id_router_style", vec![kp(1), CK, kp(2), CK, Op::Rollback(1), Op::Rollback(0), Op::Rollback(5)], vec![5, 5]),
     ];
@@ -1543,11 +1676,20 @@ fn stream_witness(ctx: &mut Ctx, m: &mut Model) {
         ctx.rep.hit(&format!("witness:{name}"));
         run_case(ctx, m, "witness", Mode::Auto, 10, &ops, &[], true);
     }
+    // the same regression through the router statements alone: CHECKPOINT '<uuid of c0>', then
+    // ROLLBACK TO '<uuid of c0>' (wall-clock seconds: the two usually tie — an id match does not
+    // depend on the order)
+    ctx.rep.hit("witness:id_shadowed_by_name_router");
+    run_case(ctx, m, "witness", Mode::Router, 10, &[kp(1), CK, kp(2), Op::Ckpt(Some(0)), kp(3), Op::Rollback(0)], &[], true);
+    ctx.rep.hit("witness:id_shadowed_by_name_router_delete");
+    run_case(ctx, m, "witness", Mode::Router, 10, &[kp(1), Op::GNode(0), CK, kp(2), Op::Ckpt(Some(0)), kp(3), Op::CkDel(0), Op::Rollback(0)], &[], true);
     // the router's own ids (uuids): ROLLBACK TO '<uuid>' and delete by uuid
     ctx.rep.hit("witness:router_uuid_targets");
     run_case(ctx, m, "witness", Mode::Router, 10, &[kp(1), CK, kp(2), CK, kp(3), Op::CkTop(1), Op::Rollback(0), kp(4), CK, Op::CkDel(2), Op::CkDel(2), Op::Rollback(2)], &[], true);
 }
 
+/// repaired by /repo fff752bd; reported again whenever a listed id reaches a checkpoint NAMED with it
+const SHADOW_CLASS: &str = "tensor_checkpoint.storage/id_shadowed_by_name";
 const TIE_CLASS: &str = "tensor_checkpoint.retention/newer_dropped_on_timestamp_tie";
 
 /// Directed, seed-independent reproduction of the retention tie finding (runs before the seeded
@@ -1670,7 +1812,7 @@ fn stream_store_raw(ctx: &mut Ctx, m: &mut Model, rng: &Rng, cases: usize) {
         let store = TensorStore::new();
         m.ask("reset");
         let mut trace = vec![];
-        let mut snaps: Vec<(Vec<u8>, String)> = vec![];
+        let mut snaps: Vec<(Vec<u8>, String, String)> = vec![];
         let len = 6 + r.below(20);
         let mut agreed = true;
         for _ in 0..len {
@@ -1704,7 +1846,7 @@ fn stream_store_raw(ctx: &mut Ctx, m: &mut Model, rng: &Rng, cases: usize) {
                 let bytes = store.snapshot_bytes().expect("snapshot_bytes");
                 let img = raw_image(&store);
                 let id = snaps.len();
-                snaps.push((bytes, img));
+                snaps.push((bytes, img, raw_image_of(&store, true)));
                 ctx.rep.hit("raw:snapshot");
                 (format!("id {id}"), "snap".to_string())
             } else {
@@ -1721,6 +1863,15 @@ fn stream_store_raw(ctx: &mut Ctx, m: &mut Model, rng: &Rng, cases: usize) {
                         "plain / cache / emb keys after restore_from_bytes differ from the snapshotted ones",
                         json!({"ops": trace.clone(), "then": snaps[id].1, "now": now}),
                     );
+                } else {
+                    let now_strict = raw_image_of(&store, true);
+                    if now_strict != snaps[id].2 {
+                        ctx.violation(
+                            DENSE_CLASS,
+                            &format!("restore_from_bytes brings every key and scalar field back, but a {EMB_DIM}-dim `_embedding` under an `emb:` key is not bit-exact (within {EMB_TOL} per component)"),
+                            json!({"ops": trace.clone(), "restore": id, "then": snaps[id].2, "now": now_strict}),
+                        );
+                    }
                 }
                 (imp, format!("restore {id}"))
             };
@@ -1745,36 +1896,139 @@ fn stream_store_raw(ctx: &mut Ctx, m: &mut Model, rng: &Rng, cases: usize) {
     }
 }
 
-/// Directed: vectors of the slab dimension (384) that are dense and NOT constant.  The model's
-/// vectors are integers / constant `_embedding`s (exactly representable, and exact under the
-/// snapshot's per-vector compression); what the snapshot does to a general dense 384-dim
-/// `_embedding` is float arithmetic outside the model, so the outcome is recorded as `observe`.
+const DENSE_CLASS: &str = "tensor_store.restore_from_bytes/dense_embedding_perturbed";
+
+/// what came back for one key after snapshot + delete + restore, against what was put
+enum Back {
+    Exact,
+    /// the key, its scalar field and an `_embedding` of the same length are back, every component
+    /// finite, but not bit-exact: (max abs error, components that differ)
+    Perturbed(f32, usize),
+    /// anything else (key / field missing, other length, scalar changed, non-finite values)
+    Other(String),
+}
+
+fn embedding_back(store: &TensorStore, key: &str, want: &[f32], want_x: i64) -> Back {
+    let t = match store.get(key) {
+        Ok(t) => t,
+        Err(e) => return Back::Other(format!("key {key} is gone: {e:?}")),
+    };
+    match t.get("x") {
+        Some(TensorValue::Scalar(ScalarValue::Int(x))) if *x == want_x => {}
+        other => return Back::Other(format!("key {key}: scalar field x holds {other:?}, was {want_x}")),
+    }
+    let after: Vec<f32> = match t.get("_embedding") {
+        Some(TensorValue::Vector(v)) => v.clone(),
+        Some(TensorValue::Sparse(s)) => s.to_dense(),
+        other => return Back::Other(format!("key {key}: `_embedding` holds {other:?}")),
+    };
+    if after.len() != want.len() {
+        return Back::Other(format!("key {key}: `_embedding` has {} components, had {}", after.len(), want.len()));
+    }
+    if after.iter().any(|x| !x.is_finite()) {
+        return Back::Other(format!("key {key}: `_embedding` holds non-finite components"));
+    }
+    let differ = after.iter().zip(want).filter(|(a, b)| a.to_bits() != b.to_bits()).count();
+    if differ == 0 {
+        Back::Exact
+    } else {
+        Back::Perturbed(after.iter().zip(want).map(|(a, b)| (a - b).abs()).fold(0f32, f32::max), differ)
+    }
+}
+
+/// Directed (runs before the seeded streams): `_embedding`s of the slab dimension (384) that are
+/// dense (more than half of the components non-zero), which `EmbeddingSlab::snapshot` carries
+/// through tensor-train compression.  None of them comes back bit-exact under an `emb:` key — a
+/// non-constant one is off by up to about 5.9, a constant 2.5 or 3.0 by a few 1e-6: known finding
+/// `tensor_store.restore_from_bytes/dense_embedding_perturbed` (Lean: the mechanism is
+/// `dense_embedding_perturbed_witness`; the model's codec is the identity, so the model is compared
+/// on the canonical form of `show_raw`).  The class is reported only for exactly that shape — an
+/// `emb:` key (embedding-slab path), a dense vector of the slab dimension, key / scalar field /
+/// length back and only the components off; everything else (the key or a field lost, another
+/// length, the SAME vector under a `plain:` or `_cache:` key = no slab copy, a mostly-zero vector =
+/// lossless sparse form, a short vector = stored dense) must be bit-exact, otherwise
+/// `keys_not_restored`, which is not a listed class.
 fn directed_dense_embedding(ctx: &mut Ctx) {
     let dense: Vec<f32> = (0..EMB_DIM).map(|i| ((i * 37 + 11) % 97) as f32 / 7.0 + 0.25).collect();
     let bits = |v: &[f32]| v.iter().map(|x| x.to_bits()).collect::<Vec<u32>>();
-    // (1) raw `emb:` key with an `_embedding` of the slab dimension: embedding-slab path
-    let store = TensorStore::new();
-    let mut t = TensorData::new();
-    t.set("x", TensorValue::Scalar(ScalarValue::Int(1)));
-    t.set("_embedding", TensorValue::Vector(dense.clone()));
-    store.put("emb:dense", t).expect("put");
-    let bytes = store.snapshot_bytes().expect("snapshot_bytes");
-    store.delete("emb:dense").expect("delete");
-    store.restore_from_bytes(&bytes).expect("restore");
-    let after = match store.get("emb:dense").ok().and_then(|t| t.get("_embedding").cloned()) {
-        Some(TensorValue::Vector(v)) => v,
-        other => {
-            ctx.rep.observe(json!({"class": "tensor_store.restore_from_bytes/dense_embedding_perturbed", "what": format!("after restore the key holds {other:?}")}));
-            return;
-        }
+    let constant = vec![2.5f32; EMB_DIM];
+    let constant_int = vec![3.0f32; EMB_DIM];
+    let mostly_zero: Vec<f32> = (0..EMB_DIM).map(|i| if i % 3 == 0 { dense[i] } else { 0.0 }).collect();
+    let short: Vec<f32> = dense[..8].to_vec();
+    let entry = |x: i64, e: &[f32]| {
+        let mut t = TensorData::new();
+        t.set("x", TensorValue::Scalar(ScalarValue::Int(x)));
+        t.set("_embedding", TensorValue::Vector(e.to_vec()));
+        t
     };
-    ctx.rep.hit("directed:dense_embedding");
-    if bits(&after) != bits(&dense) {
-        let max_err = after.iter().zip(&dense).map(|(a, b)| (a - b).abs()).fold(0f32, f32::max);
-        ctx.rep.hit("directed:dense_embedding_perturbed");
-        ctx.rep.observe(json!({"class": "tensor_store.restore_from_bytes/dense_embedding_perturbed",
-            "what": "a dense non-constant 384-dim `_embedding` under an `emb:` key does not come back bit-exact from snapshot_bytes + restore_from_bytes (= checkpoint + rollback): the snapshot stores the embedding-slab copy through tensor-train compression and the restore re-puts that copy over the exact one kept in the metadata value (same root cause as the C07 finding tensor_store.restore_from_bytes/metadata_not_restored)",
-            "max_abs_error": max_err, "len": after.len()}));
+    // (key, x, vector, is this the known shape?)
+    let puts: Vec<(&str, i64, &[f32], bool)> = vec![
+        ("emb:dense", 1, &dense, true),
+        ("plain:dense", 2, &dense, false),
+        ("_cache:dense", 3, &dense, false),
+        ("emb:const", 4, &constant, true),
+        ("emb:constint", 6, &constant_int, true),
+        ("emb:mostlyzero", 7, &mostly_zero, false),
+        ("emb:short", 5, &short, false),
+    ];
+    // (1) store level = what CheckpointManager::create / rollback call; (2) the statements
+    for level in ["snapshot_bytes+restore_from_bytes", "CHECKPOINT+ROLLBACK"] {
+        let sys = Sys::new_with(10, false);
+        let own = TensorStore::new();
+        let store: &TensorStore = if level.starts_with("CHECKPOINT") { sys.store() } else { &own };
+        for (k, x, e, _) in &puts {
+            store.put(*k, entry(*x, e)).expect("put");
+        }
+        let bytes = if level.starts_with("CHECKPOINT") {
+            if let Err(e) = sys.router.execute_parsed("CHECKPOINT 'dense-raw'") {
+                ctx.violation("query_router.rollback/target_resolution", &format!("CHECKPOINT failed: {e}"), json!({"directed": "dense_embedding"}));
+                continue;
+            }
+            vec![]
+        } else {
+            store.snapshot_bytes().expect("snapshot_bytes")
+        };
+        for (k, ..) in &puts {
+            store.delete(k).expect("delete");
+        }
+        if level.starts_with("CHECKPOINT") {
+            if let Err(e) = sys.router.execute_parsed("ROLLBACK TO 'dense-raw'") {
+                ctx.violation("query_router.rollback/target_resolution", &format!("ROLLBACK failed: {e}"), json!({"directed": "dense_embedding"}));
+                continue;
+            }
+        } else {
+            store.restore_from_bytes(&bytes).expect("restore");
+        }
+        ctx.rep.hit("directed:dense_embedding");
+        for (k, x, e, known_shape) in &puts {
+            let input = json!({"directed": "dense_embedding", "level": level, "key": k,
+                "steps": ["put <key> {x, _embedding}", "snapshot / CHECKPOINT", "delete <key>", "restore / ROLLBACK", "get <key>"],
+                "embedding": if *k == "emb:mostlyzero" { "e[i] = ((37 i + 11) mod 97) / 7 + 0.25 for i mod 3 = 0, else 0, i < 384".to_string() } else if e.len() == EMB_DIM && e[0] != e[1] { "e[i] = ((37 i + 11) mod 97) / 7 + 0.25, i < 384".to_string() } else { format!("{:?} (constant or short)", &e[..e.len().min(8)]) },
+                "len": e.len()});
+            match embedding_back(store, k, e, *x) {
+                Back::Exact => {
+                    ctx.rep.hit(if *known_shape { "directed:dense_embedding_exact" } else { "directed:dense_embedding_control_exact" });
+                }
+                Back::Perturbed(max_err, differ) if *known_shape => {
+                    ctx.rep.hit("directed:dense_embedding_perturbed");
+                    ctx.violation(
+                        DENSE_CLASS,
+                        &format!("{level}: a dense {}-dim `_embedding` under `{k}` is not bit-exact afterwards ({differ} components differ, max abs error {max_err}) while key, scalar field and length are back: the snapshot carries the embedding-slab copy through tensor-train compression and the restore re-puts it over the exact value kept in the metadata slab", e.len()),
+                        input,
+                    );
+                }
+                Back::Perturbed(max_err, differ) => ctx.violation(
+                    "tensor_store.restore_from_bytes/keys_not_restored",
+                    &format!("{level}: the `_embedding` under `{k}` (not the dense `emb:` slab shape) is not bit-exact afterwards ({differ} components differ, max abs error {max_err})"),
+                    input,
+                ),
+                Back::Other(what) => ctx.violation(
+                    "tensor_store.restore_from_bytes/keys_not_restored",
+                    &format!("{level}: {what}"),
+                    input,
+                ),
+            }
+        }
     }
     // (1b) a rollback whose image does not decode must leave the live store as it is
     // (`restore_from_bytes` decodes BEFORE it clears): garbage, a truncated image, an empty one
@@ -1818,6 +2072,32 @@ fn directed_dense_embedding(ctx: &mut Ctx) {
             json!({"checkpoint": format!("{ck:?}"), "rollback": format!("{rb:?}"), "got": format!("{:?}", other.map(|v| v.len()))}),
         ),
     }
+}
+
+/// Asides the coordinator declared outside this property's quantifier: recorded as observations
+/// (what the code does today), never as violations.
+fn directed_asides(ctx: &mut Ctx) {
+    // DROP TABLE through the text API with auto-checkpoint protection on
+    let sys = Sys::new_with(10, true);
+    let _ = sys.apply(&Op::RCreate(0));
+    let _ = sys.apply(&Op::RIns(0, 1, 2));
+    let before = sys.listing().len();
+    let ans = match sys.router.execute_parsed("DROP TABLE t0") {
+        Ok(r) => format!("ok {r:?}"),
+        Err(e) => format!("err {e}"),
+    };
+    let fresh: Vec<String> = sys.listing().into_iter().skip(before).map(|c| c.1).collect();
+    ctx.rep.observe(json!({"aside": "auto-checkpoint of DROP TABLE",
+        "what": "DROP TABLE through execute_parsed with auto_checkpoint on: auto-checkpoints made by the statement (DELETE FROM / NODE DELETE / EMBED DELETE make one each, checked in the auto stream)",
+        "answer": ans, "checkpoints_listed_before": before, "checkpoints_made": fresh}));
+    // a negative component in a SIMILAR vector literal (C15 finding negative_number_rejected)
+    let ans = match sys.router.execute_parsed("SIMILAR [-1.0, 0.0, 1.0] LIMIT 4") {
+        Ok(_) => "accepted".to_string(),
+        Err(e) => format!("rejected: {e}"),
+    };
+    ctx.rep.observe(json!({"aside": "negative number in SIMILAR",
+        "what": "SIMILAR with a negative component through execute_parsed (the text-API cross-check of this harness therefore uses non-negative query vectors only)",
+        "answer": ans}));
 }
 
 const SLAB_DIM: usize = 4;
@@ -1924,7 +2204,7 @@ fn stream_slab(ctx: &mut Ctx, m: &mut Model, rng: &Rng, cases: usize) {
     }
 }
 
-fn raw_image(st: &TensorStore) -> String {
+fn raw_image_of(st: &TensorStore, strict: bool) -> String {
     let mut raw: Vec<(u64, String)> = vec![];
     for key in st.scan("") {
         let (code, name) = if let Some(k) = key.strip_prefix("plain:").and_then(|s| s.parse::<u64>().ok()) {
@@ -1937,11 +2217,16 @@ fn raw_image(st: &TensorStore) -> String {
             continue;
         };
         if let Ok(t) = st.get(&key) {
-            raw.push((code, format!("{name}={}", show_raw(&t))));
+            raw.push((code, format!("{name}={}", show_raw(&t, strict))));
         }
     }
     raw.sort();
     raw.into_iter().map(|p| p.1).collect::<Vec<_>>().join(",")
+}
+
+/// canonical (model-comparable) raw image
+fn raw_image(st: &TensorStore) -> String {
+    raw_image_of(st, false)
 }
 
 fn main() {
@@ -1950,11 +2235,11 @@ fn main() {
     let rep = Report::new(
         "a case is one statement sequence run on a fresh router and the model with the full image compared after every statement; non-trivial = at least one statement succeeded and changed state; distinct = distinct statement traces",
     );
-    let mut ctx = Ctx { rep, per_class: BTreeMap::new() };
+    let mut ctx = Ctx { rep, per_class: BTreeMap::new(), delete_shadow_noted: false };
     ctx.rep.expected_branches = [
         "op:rcreate", "op:rdrop", "op:rins", "op:rdel", "op:rhidx", "op:rbidx", "op:gnode", "op:gedge", "op:gdeln",
         "op:gdele", "op:vput", "op:vdel", "op:vbuild", "op:kput", "op:kdel", "op:ckpt", "op:rollback",
-        "op:ckpt_named", "op:rollback_by_id", "op:ckdel", "op:cktop", "rollback:id_shadowed_by_name",
+        "op:ckpt_named", "op:rollback_by_id", "op:ckdel", "op:cktop", "rollback:listed_id_also_a_name", "rollback:unlisted_id_by_name", "ckdel:listed_id_also_a_name",
         "rollback:by_shared_or_foreign_name", "blob_chunk:default", "blob_chunk:small_shared", "text_api:checked_after_rollback", "text_api:checked_at_checkpoint", "directed:dense_embedding", "directed:undecodable_image", "directed:dense_vector_engine_exact", "op:text_delete", "op:text_node_delete", "op:text_embed_delete", "auto_checkpoint:created", "slab:set", "slab:del", "slab:clear", "slab:compact", "slab:reload",
         "res:ok", "res:id", "res:count", "res:err notfound", "res:err exists", "res:err storage",
         "retention:tie_at_boundary", "retention:incremental", "retention:bulk", "raw:restore",
@@ -1964,6 +2249,8 @@ fn main() {
         "directed:query_router.rollback/stale_hnsw_cache_after_rollback",
         "directed:query_router.rollback/checkpoints_lost_after_rollback",
         "directed:tensor_checkpoint.retention/newer_dropped_on_timestamp_tie",
+        "directed:tensor_store.restore_from_bytes/dense_embedding_perturbed",
+        "directed:dense_embedding_control_exact",
     ]
     .iter()
     .map(|s| s.to_string())
@@ -1976,6 +2263,7 @@ fn main() {
     stream_witness(&mut ctx, &mut m);
     stream_retention_tie_directed(&mut ctx, &mut m);
     directed_dense_embedding(&mut ctx);
+    directed_asides(&mut ctx);
     let directed: Vec<String> = ctx.per_class.keys().cloned().collect();
     for c in &directed {
         ctx.rep.hit(&format!("directed:{c}"));
